@@ -8,6 +8,10 @@ def run(ctx):
     ctx.prove()
     g.network(ctx, "C03-")
     g.validation_gate(ctx)
+    # the host's real saveDecision (host.go): decision -> certificate with the delta towards the next committee ->
+    # stored; judged on the `save` lines of the consensus-inputs harness (evolving power tables, real certstore)
+    ctx.correspond("h_inputs", "Inputs", tag="host-save", nontrivial=r"^save ", oracle_filter=r"C03-", diff_filter=r":: save ",
+                   env={"VERIF_INPUTS_MODE": "c03", "VERIF_INPUTS_ONLY": "node"})
     return ctx.finish(
         rule=g.RULE + " Oracle C03: per decision — instance, round 0, DECIDE, supplemental data, strictly increasing signer "
                       "indices in range with non-zero scaled power forming a strong quorum; aggregate verifies over the decided "
